@@ -257,6 +257,16 @@ def a_orderbook(draw, cx, name, node=None, n_max=6):
             "full_exec": False, "wacc": draw(st.sampled_from([0.0, 0.0, 0.05, 0.4]))}
 
 
+def _partial_costs(draw, cx, a):
+    """start / running costs as interval data that cover only part of the horizon (the documented default 0 applies
+    to the rest)"""
+    for key in ("start_costs", "running_costs"):
+        if a.get(key) and isinstance(a[key], (int, float)) and draw(st.integers(0, 4)) == 0:
+            T = cx.g["T"]
+            cut = draw(st.integers(1, max(1, T - 1)))
+            a[key] = {"iv": [[cut, T + 50, a[key]]] if draw(st.booleans()) else [[-50, cut, a[key]]]}
+
+
 def _vary_fuel_efficiency(draw, cx, a):
     """fuel efficiency as interval data (documented form float / dict / str): it is the dispatch factor of the fuel
     rows, so it differs between the steps - and between the intervals of a split build"""
@@ -295,6 +305,7 @@ def a_plant(draw, cx, name, fuel=None):
         a["consumption_if_on"] = draw(st.sampled_from([0.0, 0.25])) / cx.dt0
         a["start_fuel"] = draw(st.sampled_from([0.0, 1.0]))
         _vary_fuel_efficiency(draw, cx, a)
+    _partial_costs(draw, cx, a)
     return a
 
 
@@ -436,6 +447,7 @@ def a_chp(draw, cx, name):
         a["consumption_if_on"] = draw(st.sampled_from([0.0, 0.25])) / cx.dt0
         a["start_fuel"] = draw(st.sampled_from([0.0, 1.0]))
         _vary_fuel_efficiency(draw, cx, a)
+    _partial_costs(draw, cx, a)
     return a
 
 
